@@ -18,7 +18,8 @@ package topics
 
 //@ func (PredefinedTopics).GetTopicID
 //@   nopanic [C05]
-//@   ensures [C05,C32] sound: result1 ==> nameDefined(t, clientID, result0) && nameSpec(t, clientID, result0) == topic
+// C02: the gateway publishes under a predefined ID only if this lookup is sound for the client's own view of the configuration
+//@   ensures [C05,C32,C02] sound: result1 ==> nameDefined(t, clientID, result0) && nameSpec(t, clientID, result0) == topic
 //@   ensures [C05] none_zero: !result1 ==> result0 == 0
 
 // ---- C30: building the mapping (file, then options; later definitions win) ----
